@@ -194,7 +194,8 @@ def rotN (n : List Nat) (i1 i2 : Nat) (k : Int) : List Nat := if isOdd k then sw
 /-- periodic directions turn with the mesh: for odd `k` the two (single-character) axis names
 are swapped in the `bc` string -/
 def rotBc (bc a1 a2 : String) (k : Int) : String :=
-  if isOdd k && !(bc == "neumann" || bc == "dirichlet" || bc == "") && a1.length == 1 && a2.length == 1 then
+  if isOdd k && !(bc == "neumann" || bc == "dirichlet" || bc == "") && a1.length == 1 && a2.length == 1
+      && a1 == a1.toLower && a2 == a2.toLower then      -- repo fix be43fa9b: only lower-case names are swapped
     String.ofList (bc.toList.map fun c =>
       if [c] = a1.toList then a2.toList.headD c else if [c] = a2.toList then a1.toList.headD c else c)
   else bc
